@@ -15,7 +15,7 @@ use std::collections::BTreeMap;
 
 /// one-, two- and three-word names, some a word-prefix of another
 /// ... two with non-ASCII letters, two spelled like a month / a zone abbreviation, one containing an operator character
-pub const NAMES: [&str; 13] = ["total", "total cost", "total cost net", "rent", "net", "bonus", "ürün", "цена нетто", "may", "west", "tax-rate", "q1", "item 2"];
+pub const NAMES: [&str; 14] = ["total", "total cost", "total cost net", "rent", "net", "bonus", "ürün", "цена нетто", "may", "west", "tax-rate", "q1", "item 2", "big rent"];
 
 /// a value with an exact literal spelling
 #[derive(Clone, Debug, PartialEq)]
@@ -176,6 +176,9 @@ fn sound(e: &Expr, env: &Env) -> bool {
         Expr::One(_) | Expr::Bin(..) => true,
         Expr::Neg(o) | Expr::ScaleNeg(_, o) | Expr::NegThen(o, _, _) => signable(o),
         Expr::Suffix(o, w) => !is_date(o) || SAFE_DATE_SUFFIX.contains(&w.as_str()),
+        // plain words in front of the operand (`big house + big rent`): they are dropped, which leaves a sentence only
+        // in front of a plain number
+        Expr::Prefix(w, o) if w.starts_with("big house") || w.starts_with("2 big houses") => matches!(val(o), Some(Val::Num(_))),
         Expr::Prefix(w, o) => !is_date(o) || !(w.ends_with("of") || w.ends_with("on") || w.ends_with("off")),
     }
 }
@@ -429,7 +432,7 @@ pub fn literal_strategy() -> impl Strategy<Value = String> {
 
 pub fn operand_strategy(name_weight: u32) -> impl Strategy<Value = Operand> {
     prop_oneof![
-        name_weight => (0u8..13, 0u8..5, any::<u32>()).prop_map(|(i, c, b)| Operand::Name(i, c, b)),
+        name_weight => (0u8..14, 0u8..5, any::<u32>()).prop_map(|(i, c, b)| Operand::Name(i, c, b)),
         2 => literal_strategy().prop_map(Operand::Lit),
     ]
 }
@@ -441,7 +444,7 @@ pub fn expr_strategy() -> impl Strategy<Value = Expr> {
         "- 30 minutes", "* 2", "/ 4", "to date", "is what % of 80", "is 10% of what", "at 10:30", "to 1/1/2022",
     ])
     .prop_map(|s| s.to_string());
-    let prefix = prop::sample::select(vec!["10% of", "5% on", "20% off", "2 *", "100 +", "1000 -", "12/12/2020 +", "10:30 +", "$50 +", "10 km +", "12/12/2020 at", "1 jan 2021 at"]).prop_map(|s| s.to_string());
+    let prefix = prop::sample::select(vec!["10% of", "5% on", "20% off", "2 *", "100 +", "1000 -", "12/12/2020 +", "10:30 +", "$50 +", "10 km +", "12/12/2020 at", "1 jan 2021 at", "big house +", "2 big houses *"]).prop_map(|s| s.to_string());
     prop_oneof![
         3 => operand_strategy(5).prop_map(Expr::One),
         5 => (operand_strategy(5), op, operand_strategy(3)).prop_map(|(a, o, b)| Expr::Bin(a, o, b)),
@@ -455,15 +458,15 @@ pub fn expr_strategy() -> impl Strategy<Value = Expr> {
 
 pub fn stmt_strategy() -> impl Strategy<Value = Stmt> {
     prop_oneof![
-        6 => (0u8..13, 0u8..5, any::<u32>(), prop_oneof![3 => literal_strategy().prop_map(|l| Expr::One(Operand::Lit(l))), 4 => expr_strategy()]).prop_map(|(i, c, b, e)| Stmt::Assign(i, c, b, e)),
+        6 => (0u8..14, 0u8..5, any::<u32>(), prop_oneof![3 => literal_strategy().prop_map(|l| Expr::One(Operand::Lit(l))), 4 => expr_strategy()]).prop_map(|(i, c, b, e)| Stmt::Assign(i, c, b, e)),
         // copies (value, not reference): a later re-binding of the source must not show through
-        2 => (0u8..13, 0u8..13, 0u8..5, any::<u32>()).prop_map(|(i, j, c, b)| Stmt::Assign(i, c.wrapping_add(1), b.rotate_left(7), Expr::One(Operand::Name(j, c, b)))),
-        2 => (0u8..13, 0u8..5, any::<u32>()).prop_map(|(i, c, b)| Stmt::Use(Expr::One(Operand::Name(i, c, b)))),
+        2 => (0u8..14, 0u8..14, 0u8..5, any::<u32>()).prop_map(|(i, j, c, b)| Stmt::Assign(i, c.wrapping_add(1), b.rotate_left(7), Expr::One(Operand::Name(j, c, b)))),
+        2 => (0u8..14, 0u8..5, any::<u32>()).prop_map(|(i, c, b)| Stmt::Use(Expr::One(Operand::Name(i, c, b)))),
         // a name re-bound to a value that differs from its current one by less than the printer shows
         // (`x = x + 0,004`): the new value is the binding, however alike the two print
-        2 => (0u8..13, 0u8..5, any::<u32>(), prop::sample::select(vec!["+ 0,004", "* 1,0001", "- 0,0003", "+ 0,004 usd", "+ 1 g", "+ 0,3%"])).prop_map(|(i, c, b, s)| Stmt::Assign(i, c, b, Expr::Suffix(Operand::Name(i, c, b), s.to_string()))),
+        2 => (0u8..14, 0u8..5, any::<u32>(), prop::sample::select(vec!["+ 0,004", "* 1,0001", "- 0,0003", "+ 0,004 usd", "+ 1 g", "+ 0,3%"])).prop_map(|(i, c, b, s)| Stmt::Assign(i, c, b, Expr::Suffix(Operand::Name(i, c, b), s.to_string()))),
         7 => expr_strategy().prop_map(Stmt::Use),
-        2 => (0u8..13, 0u8..5).prop_map(|(i, k)| Stmt::Fail(i, k)),
+        2 => (0u8..14, 0u8..5).prop_map(|(i, k)| Stmt::Fail(i, k)),
         1 => (0u8..6).prop_map(Stmt::Garbage),
     ]
 }
@@ -477,7 +480,7 @@ pub fn program_strategy(max: usize) -> impl Strategy<Value = Program> {
 
 fn program_strategy_en(max: usize) -> impl Strategy<Value = Program> {
     // start with a few plain assignments so that names are bound early
-    (prop::collection::vec((0u8..13, 0u8..5, any::<u32>(), literal_strategy()), 1..4), prop::collection::vec(stmt_strategy(), 2..max)).prop_map(|(init, rest)| {
+    (prop::collection::vec((0u8..14, 0u8..5, any::<u32>(), literal_strategy()), 1..4), prop::collection::vec(stmt_strategy(), 2..max)).prop_map(|(init, rest)| {
         let mut stmts: Vec<Stmt> = init.into_iter().map(|(i, c, b, l)| Stmt::Assign(i, c, b, Expr::One(Operand::Lit(l)))).collect();
         stmts.extend(rest);
         Program { stmts, lang: 0 }
